@@ -264,3 +264,51 @@ def attack_strings(pattern, pumps=((1, 1), (40, 1), (1, 40), (6, 6), (2, 20), (6
             seen.add(s)
             out.append(s)
     return out
+
+
+# ---------------------------------------------------------------------------------------------
+# TXT property keys the protocol modules interpret (used by harness/c05.py)
+# ---------------------------------------------------------------------------------------------
+KEY_MODULES = {
+    "pyatv.protocols.airplay": ["pyatv.protocols.airplay", "pyatv.protocols.airplay.utils"],
+    "pyatv.protocols.raop": ["pyatv.protocols.raop", "pyatv.protocols.airplay.utils"],
+    "pyatv.protocols.companion": ["pyatv.protocols.companion"],
+    "pyatv.protocols.mrp": ["pyatv.protocols.mrp"],
+    "pyatv.protocols.dmap": ["pyatv.protocols.dmap"],
+}
+
+
+def _keys_in(modname):
+    """string constants used as `x.get("k"…)`, `x["k"]`, `"k" in x` inside functions that mention
+    `properties` (TXT records reach the code as `properties` mappings)"""
+    mod = importlib.import_module(modname)
+    tree = ast.parse(inspect.getsource(mod))
+    keys = set()
+    for fn in ast.walk(tree):
+        if not isinstance(fn, (ast.FunctionDef, ast.AsyncFunctionDef)):
+            continue
+        src = ast.unparse(fn)
+        if "properties" not in src:
+            continue
+        for node in ast.walk(fn):
+            if isinstance(node, ast.Call) and isinstance(node.func, ast.Attribute) and node.func.attr == "get" \
+                    and node.args and isinstance(node.args[0], ast.Constant) and isinstance(node.args[0].value, str):
+                keys.add(node.args[0].value)
+            elif isinstance(node, ast.Subscript) and isinstance(node.slice, ast.Constant) and isinstance(node.slice.value, str):
+                keys.add(node.slice.value)
+            elif isinstance(node, ast.Compare) and isinstance(node.left, ast.Constant) and isinstance(node.left.value, str) \
+                    and any(isinstance(op, (ast.In, ast.NotIn)) for op in node.ops):
+                keys.add(node.left.value)
+    return {k for k in keys if k and len(k) <= 32 and k.isprintable() and " " not in k and "/" not in k}
+
+
+def txt_keys():
+    """{protocol module: sorted keys} + keys read by the scanner itself (`get_unique_id`, `_device-info`)"""
+    out = {}
+    common = _keys_in("pyatv.helpers") | _keys_in("pyatv.core.scan") | _keys_in("pyatv.core.mdns")
+    for proto, mods in KEY_MODULES.items():
+        keys = set(common)
+        for m in mods:
+            keys |= _keys_in(m)
+        out[proto] = sorted(keys)
+    return out
